@@ -130,6 +130,9 @@ class _Fixed:
     def choice(self, n, name=''):
         return 0
 
+    def bool(self, name):
+        return True
+
     def __getattr__(self, k):
         return getattr(self.eng, k)
 
@@ -156,8 +159,13 @@ def build(eng, pkt, kind, case):
         in_name = list(name)
         if dp is not None:
             in_name.insert(dp, env.concrete_component(2, bytes(32)))
-        param = enc.InterestParam(must_be_fresh=True, nonce=eng.int('nonce', 0, 2 ** 32 - 1),
-                                  lifetime=eng.int('lifetime', 256, 65535))
+        # every optional element that may stand between the Name and ApplicationParameters is present or absent
+        param = enc.InterestParam(can_be_prefix=bool(eng.bool('cbp')), must_be_fresh=bool(eng.bool('mbf')),
+                                  nonce=eng.int('nonce', 0, 2 ** 32 - 1),
+                                  lifetime=eng.int('lifetime', 256, 65535) if eng.bool('has_lifetime') else None,
+                                  hop_limit=eng.int('hop', 0, 255) if eng.bool('has_hop') else None)
+        if case.get('fh'):
+            param.forwarding_hint = [[env.concrete_component(8, b'fh'), env.concrete_component(8, b'x')]]
         wire = enc.make_interest(in_name, param, app, rec)
     return tobytes(wire), rec, name
 
@@ -341,7 +349,8 @@ def cases(tier, seed):
                                           'rmin': 32 if payload == 2 and len(shape) == 2 else 66}, {'weight': 10}))
                 for dp in (None, 0, len(shape)):
                     cs.append(('cover_interest', {'pkt': 'interest', 'signer': kind, 'payload': payload, 'shape': shape,
-                                                  'digest_pos': dp, 'rmin': 32 if (payload == 2 and dp is None) else 68},
+                                                  'digest_pos': dp, 'rmin': 32 if (payload == 2 and dp is None) else 68,
+                                                  'fh': dp == 0},
                                {'weight': 10}))
     # tampering: sizes of the two template packets are bounded by ~120 / ~140 bytes (RSA: 256-byte signature)
     for pkt in ('data', 'interest'):
